@@ -129,6 +129,8 @@ def run(chk, F, tier):
               % (len(errs), errs[0] if errs else "", locs[0] if locs else ""), locs[0][4:] if locs else None,
               witness={"errors": errs[:10], "locations": locs[:10]},
               sample={"rule": "R12b", "lints": ["unwrap_used", "unwrap_in_result", "panic", "panic_in_result_fn"], "verdict": "clean"})
+    from rules import c12d
+    c12d.run_r12d(chk, F)
     from rules import c12c
     n, rec, aud = c12c.run_r12c(chk, F)
     chk.floor("bounds-sensitive sites in the analysis crate", n, 200)
